@@ -903,6 +903,7 @@ func resolveMain(argv []string) {
 	fs.Parse(argv)
 	r := hx.NewRand(*seed)
 	pl := plants()
+	cps, css := ctxPlants(), ctxSites()
 	dist := map[string]int{}
 	total, problems := 0, 0
 	universe := []string{}
@@ -915,12 +916,23 @@ func resolveMain(argv []string) {
 		g := &gen{r: r.Split()}
 		var p *plant
 		round := 0
+		var pr *program
+		var ctxExpect func(o [6]bool) []rerr
 		if i%8 != 0 { // one in eight programs is left valid
-			k := i - i/8 - 1 // index among the planted programs: every (plant, site) pair is visited in turn
-			p = pl[k%len(pl)]
-			round = k / len(pl)
+			// index among the planted programs: every (plant, site) pair is visited in turn,
+			// then every (context-sensitive construct, branch position) pair
+			k := (i - i/8 - 1) % (5*len(pl) + len(cps)*len(css))
+			if k < 5*len(pl) {
+				p = pl[k%len(pl)]
+				round = k / len(pl)
+			} else {
+				k -= 5 * len(pl)
+				pr, ctxExpect = g.ctxProgram(cps[k%len(cps)], css[k/len(cps)])
+			}
 		}
-		pr := g.program(p, round)
+		if pr == nil {
+			pr = g.program(p, round)
+		}
 		f, perr := (&syntax.FileOptions{}).Parse("p.star", pr.Src, 0)
 		out := &progOut{Kind: "prog", Plant: pr.Kind, Where: pr.Where, Marker: pr.Marker, Src: pr.Src, Problems: []string{}}
 		if perr != nil {
@@ -961,6 +973,27 @@ func resolveMain(argv []string) {
 				key += ":accepted"
 			}
 			dist[key]++
+			if ctxExpect != nil {
+				wantL := ctxExpect(o)
+				same := len(wantL) == len(res.Errs)
+				for j := 0; same && j < len(wantL); j++ {
+					same = wantL[j] == res.Errs[j]
+				}
+				switch {
+				case res.Other != "":
+					out.Problems = append(out.Problems, fmt.Sprintf("opts=%06b: %s", b, res.Other))
+				case len(wantL) > 0 && res.Accepted:
+					out.Problems = append(out.Problems, fmt.Sprintf("opts=%06b: accepted, but %v applies (effects: %d)", b, wantL, res.Effects))
+				case len(wantL) == 0 && !res.Accepted:
+					out.Problems = append(out.Problems, fmt.Sprintf("opts=%06b: breaks no rule but was rejected: %v", b, res.Errs))
+				case !same:
+					out.Problems = append(out.Problems, fmt.Sprintf("opts=%06b: errors %v, expected exactly %v", b, res.Errs, wantL))
+				case len(wantL) > 0 && res.Effects != 0:
+					out.Problems = append(out.Problems, fmt.Sprintf("opts=%06b: rejected program had %d host-visible effects", b, res.Effects))
+				}
+				out.Runs = append(out.Runs, res)
+				continue
+			}
 			switch {
 			case res.Other != "":
 				out.Problems = append(out.Problems, fmt.Sprintf("opts=%06b: %s", b, res.Other))
@@ -1007,11 +1040,11 @@ func resolveMain(argv []string) {
 		if len(out.Problems) > 0 {
 			problems++
 		}
-		out.Coq = i < *ncoq
+		out.Coq = *ncoq > 0 && i%((*nprog+*ncoq-1) / *ncoq) == 1 && i/((*nprog+*ncoq-1) / *ncoq) < *ncoq
 		if out.Coq || len(out.Problems) > 0 {
 			hx.Emit(out)
 		}
 	}
-	hx.Emit(map[string]any{"kind": "rsummary", "programs": *nprog, "runs": total, "problem_programs": problems, "dist": dist, "vectors": *nvec, "plants": len(pl)})
+	hx.Emit(map[string]any{"kind": "rsummary", "programs": *nprog, "runs": total, "problem_programs": problems, "dist": dist, "vectors": *nvec, "plants": len(pl), "context_pairs": len(cps) * len(css)})
 	hx.Flush()
 }
